@@ -399,6 +399,39 @@ def race_discipline(tree, rep, rule="C07.R5"):
                                "(RuntimeError: Set changed size during iteration escapes connect())" % (cls, m.name))
     if n < 2:
         raise AnalysisError("%s: fewer loops over _remaining than expected (%d)" % (cls, n))
+    # one wiring loop: the callback that takes a contender out of _remaining and the callbacks that record its outcome are
+    # attached in the same iteration (a contender that has already fired runs them at once, in this order)
+    run = tree.func(TR, cls, "run")
+    def attaches(lp, name):
+        return any(isinstance(x, ast.Call) and isinstance(x.func, ast.Attribute) and x.func.attr in ("addCallback", "addCallbacks", "addBoth", "addErrback")
+                   and any(is_self_attr(a, name) for a in x.args) for b in lp.body for x in ast.walk(b))
+    loops = [lp for lp in ast.walk(run) if isinstance(lp, ast.For)]
+    rem = [lp for lp in loops if attaches(lp, "_remove")]
+    ok = len(rem) == 1 and all(attaches(rem[0], nm) for nm in ("_succeeded", "_failed", "_maybe_done")) and \
+        not any(attaches(lp, nm) for lp in loops if lp is not rem[0] for nm in ("_succeeded", "_failed", "_maybe_done"))
+    rep.check(rule, "%s.run wires _remove, _succeeded/_failed and _maybe_done on a contender in one loop iteration" % cls, ok, site(run, TR),
+              key="%s:race:single-wiring-loop" % rule,
+              what="a contender that fired before run() takes itself out of _remaining before its outcome callbacks are attached: "
+                   "its result is ignored (connect() fails although the sender already said go on that link)")
+
+
+def r6(tree, rep):
+    """the listening port is closed whatever ends the listener contender - an inbound winner (callback) or its cancellation
+    by another winner / the deadline (errback): the stop is attached with addBoth"""
+    fn = tree.func(TR, "Common", "_get_direct_hints")
+    sites = [c for c in ast.walk(fn) if isinstance(c, ast.Call) and isinstance(c.func, ast.Attribute) and is_self_attr(c.func.value, "_listener_d")
+             and c.func.attr in ("addBoth", "addCallback", "addErrback", "addCallbacks")]
+    def stops(cb):
+        from ..astutil import callback_function
+        f = callback_function(cb, fn, tree.methods(TR, "Common"))
+        return f is not None and any(isinstance(x, ast.Call) and isinstance(x.func, ast.Attribute) and x.func.attr == "stopListening" for x in ast.walk(f))
+    stop_sites = [c for c in sites if c.args and stops(c.args[0])]
+    ok = len(stop_sites) == 1 and (stop_sites[0].func.attr == "addBoth" or (
+        stop_sites[0].func.attr == "addCallbacks" and len(stop_sites[0].args) >= 2 and stops(stop_sites[0].args[1])))
+    rep.check("C07.R6", "the listener contender stops listening on success AND on cancellation (addBoth)", ok,
+              site(stop_sites[0] if stop_sites else fn, TR), key="C07.R6:listener:stop-on-both",
+              what="after connect() finished (another winner, or the deadline) the port keeps listening: a late peer is still accepted, "
+                   "told go, and never returned or closed")
 
 
 def run(tree, rep, tier):
@@ -408,6 +441,7 @@ def run(tree, rep, tier):
     r4(tree, rep)
     r5(tree, rep)
     race_discipline(tree, rep)
+    r6(tree, rep)
 
 
 MUTANTS = [
